@@ -51,6 +51,8 @@ def gen(rng):
             phase2.append({'start': rng.choice([0, 0, U, D]), 'dur': rng.choice([0, D, 2 * D]),
                            'out': rng.choice(['ret', 'raise']), 'aw': rng.choice(['coro', 'coro', 'task']),
                            'via': 'ensure', 'n': 1})
+    if mode in ('idle', 'idle2run', 'run2idle') and not dep and rng.random() < 0.3:
+        scen['shared_agen'] = True
     if mode in ('idle', 'running', 'mixed') and not dep and rng.random() < 0.3:
         # an earlier target loop of the process has become unreachable garbage (in a reference cycle); the cyclic
         # collector runs at one line of the per-loop lock bookkeeping, in the thread executing it
@@ -107,10 +109,20 @@ class EnsureHarness:
             box2 = {}
             dep_event = aio.Event()
 
+            async def ticket_source():
+                n = 0
+                while True:
+                    yield n
+                    n += 1
+            tickets = ticket_source() if scen.get('shared_agen') else None
+
             def make_body(aid, c, tgt, is_future):
                 async def body():
                     lp = aio.get_running_loop()
                     emit('body_start', aid, lp is tgt, lp.sim_name, _who())
+                    if tickets is not None and lp is target:
+                        # every awaitable evaluated on the target draws from one long-lived async generator that lives there
+                        emit('ticket', aid, await tickets.__anext__())
                     if c['dur']:
                         await aio.sleep(c['dur'])
                     if c.get('role') == 'waiter':
@@ -325,6 +337,12 @@ class C17(Check):
         st[f'target_{mode}'] += 1
         if any(e[0] == 'gc' for e in r.log):
             st['gc_run_inside_loop_lock_bookkeeping'] += 1
+        tk = [e[2] for e in r.log if e[0] == 'ticket']
+        if tk:
+            st['awaitables_sharing_an_async_generator_of_the_target'] += 1
+            if sorted(tk) != list(range(len(tk))):
+                res.violate('C17:target-state-disturbed', 'an async generator living on the target loop was restarted or closed behind '
+                            'its owner\'s back', tickets=tk)
         if any(e[0] == 'busy_end' for e in r.log):
             st['stopped_while_busy_then_used_idle'] += 1
         if r.sched.delays_fired:
